@@ -232,6 +232,13 @@ def check_modifier_loop(ctx):
         raise AnalysisError("C14.3: the modifier-stripping loop (`while ...: first_char = elem[0]; if first_char == ...`) is not present in a recognised form")
     lp = loops[0]
     chars = sorted({n.comparators[0].value for n in ast.walk(lp) if isinstance(n, ast.Compare) and norm(n.left) == "first_char" and isinstance(n.comparators[0], ast.Constant)})
+    other_tests = [n for n in ast.walk(lp) if isinstance(n, ast.Compare) and norm(n.left) == "first_char" and not (
+        len(n.ops) == 1 and isinstance(n.ops[0], (ast.Eq, ast.NotEq)) and isinstance(n.comparators[0], ast.Constant))]
+    if other_tests or not chars:
+        # the first character is looked up in a table / a set of seen characters: which modifiers that table holds and how a
+        # repeat is detected is not read off an if-chain
+        raise AnalysisError(f"C14.3: the modifier-stripping loop decides on `{short(other_tests[0] if other_tests else lp.test, 50)}`, not on comparisons of the first character "
+                            "with literal modifier characters; its table is not interpreted")
     if set(chars) != docchars:
         ctx.bad("C14.3", f, lp, f"the modifier characters handled ({chars}) differ from the documented ones ({sorted(docchars)})",
                 construct=f"modifier arms {chars} vs docs {sorted(docchars)}")
